@@ -32,6 +32,9 @@ def run(ctx):
             exp = "true" if c["accept"] else "false"
             L.append('static_assert(std::is_convertible<%s, %s>::value == %s, "a%d is_convertible");' % (d, q, exp, k))
             L.append('static_assert(std::is_constructible<%s, %s>::value == %s, "a%d is_constructible");' % (q, d, exp, k))
+            # every value category and constness of the duration ("for every duration value d")
+            L.append('static_assert(std::is_convertible<const %s, %s>::value == %s && std::is_convertible<%s &, %s>::value == %s && std::is_convertible<const %s &, %s>::value == %s && '
+                     'std::is_convertible<%s &&, %s>::value == %s && std::is_convertible<const %s &&, %s>::value == %s, "a%d is_convertible_cvref");' % (d, q, exp, d, q, exp, d, q, exp, d, q, exp, d, q, exp, k))
             L.append('static_assert(std::is_convertible<%s, %s>::value == %s, "a%d corresponding-quantity");' % (d.replace("std::chrono::duration<%s, std::ratio<%s, %s>>" % (CXX_T[c["R1"]], c["N1"], c["D1"]), "Quantity<SU<%sULL, %sULL>, %s>" % (c["N1"], c["D1"], CXX_T[c["R1"]])), q, exp, k))
         return "\n".join(L) + "\nint main() {}\n"
     nt = [0]
